@@ -23,6 +23,7 @@ RULE = (
 ASSUMPTIONS = [
     "a +-1 band difference is tolerated only where the unrounded curve is within delta of a rounding tie; delta = 10 x the measured disagreement of the two runs' unrounded curves + 1e-9",
     "a different lambda is tolerated only when the replica's criterion values of the two candidates agree to 1e-9 relative or the criterion is at rounding-noise level (counted)",
+    "robust variants: a different lambda is tolerated when the returned curve's weighted residual sum is below (1e-9 scale)^2 in either frame, or when our replica of the score with the tapped weights of the deciding pass separates the candidates by <= 10 x its own change between the two frames",
     "pairs whose unrounded curves disagree by >= 0.05 (ill-conditioned solves, C01 known finding) and curves leaving +-32766 are outside the claim and counted",
 ]
 HARD_TIMEOUT_S = {"quick": 900, "thorough": 3600}
@@ -83,24 +84,83 @@ def criterion(variant, yy, nodata, prm):
     return sel["scores"], 10.0 ** np.asarray(g, dtype=float), bool(deg)
 
 
+def _tap_robust(variant, fy, fnd, prm):
+    f = c05.interp_kernel(variant)
+    out_i = np.zeros(fy.size, dtype=np.int16)
+    lo = np.zeros(1)
+    lines = {("mad = np.median(np.abs(r_arr[", "u_arr = r_arr /"): ["w_temp", "s"]}
+    with np.errstate(all="ignore"), shim.Tap(f, at_return=["robust_gcv", "robust_weights", "z"], lines=lines) as tap:
+        if variant == "ws2dwcv":
+            f(fy.astype(float), fnd, np.asarray(prm["llas"], dtype=float), True, out_i, lo)
+        else:
+            f(fy.astype(float), fnd, prm["p"], np.asarray(prm["llas"], dtype=float), True, out_i, lo)
+    return tap
+
+
+def _replica_gcv(fy, fnd, wt, lam):
+    ok = W.valid_full(fy, fnd)
+    ycl = np.where(ok > 0, fy, 0.0)
+    return W.gcv_score(ycl, S.ws2d_solver(ycl, lam, wt), wt, lam)[0]
+
+
+def robust_lambda_excused(R, variant, yy, nodata, prm, l1, l2, other):
+    """Robust GCV chose different lambdas on (y, nodata) and (y + c, nodata + c).
+
+    (1) noise level: the tapped best score, or the weighted residual sum of the returned curve (score = wsse /
+        denominator and the denominator is ~1e-9 in the interpolating regime), is below (1e-9 * scale)^2 in either frame;
+    (2) floating-point tie: with the weights the kernel used in the deciding pass (tapped), our own replica of the score
+        (repository solver, not the kernel's criterion code) separates the two candidates by no more than 10 x the
+        amount by which the same replica score changes between the two frames (each with its own tapped weights when
+        those agree to 1e-6), i.e. by less than the measured resolution of the criterion on these inputs.  The first pass (weights w) is examined when it already differs."""
+    frames = ((yy, nodata),) + ((other,) if other is not None else ())
+    taps = []
+    for fy, fnd in frames:
+        tap = _tap_robust(variant, fy, fnd, prm)
+        taps.append(tap)
+        rg = np.asarray(tap.ret[0]["robust_gcv"], dtype=float)
+        ok = np.isfinite(fy) & (fy != fnd)
+        scale = max(1.0, float(np.max(np.abs(fy[ok]))))
+        rw = np.asarray(tap.ret[0]["robust_weights"], dtype=float)
+        z = np.asarray(tap.ret[0]["z"], dtype=float)
+        wsse = float(np.sum(rw[ok] * (fy[ok] - z[ok]) ** 2))
+        if np.any(rg[:, 0] < (1e-9 * scale) ** 2) or wsse < (1e-9 * scale) ** 2 * max(1, int((rw[ok] > 0).sum())):
+            R.count("lambda_diff_degenerate")
+            return True
+    if other is None or any(len(t.events) < 2 for t in taps):
+        return False
+    evA, evB = taps[0].events, taps[1].events
+    s0A, s0B = float(evA[0][1]["s"]), float(evB[0][1]["s"])
+    if abs(s0A - s0B) > 1e-12 * max(s0A, s0B):
+        wt, ca, cb, tag = np.asarray(evA[0][1]["w_temp"], dtype=float), s0A, s0B, "pass0"
+        wtB = wt
+    else:
+        wt, ca, cb, tag = np.asarray(evA[1][1]["w_temp"], dtype=float), l1, l2, "pass1"
+        # the robust weights of the second frame are derived from residuals ~1e-5 of values ~1e3 and carry their own
+        # rounding noise, to which the score of the interpolating regime is very sensitive (1/(1 - trH/N) ~ 1e6); they are
+        # part of the resolution as long as they are the same weights up to that noise -- weights that really differ
+        # between the frames are a violation in themselves and never excuse anything
+        wtB = np.asarray(evB[1][1]["w_temp"], dtype=float)
+        if wtB.shape != wt.shape or not np.all(np.abs(wtB - wt) <= 1e-6):
+            wtB = wt
+    if (wt > 0).sum() < 2:
+        return False
+    gA = [_replica_gcv(yy, nodata, wt, k) for k in (ca, cb)]
+    gB = [_replica_gcv(other[0], other[1], wtB, k) for k in (ca, cb)]
+    if not np.all(np.isfinite(gA + gB)):
+        return False
+    res = max(abs(a - b) for a, b in zip(gA, gB))
+    if abs(gA[0] - gA[1]) <= 10 * res + 1e-9 * max(abs(gA[0]), abs(gA[1])):
+        R.count("lambda_diff_tie")
+        R.count(f"lambda_diff_tie_robust_{tag}")
+        R.note_max("max_robust_tie_rel_gap", abs(gA[0] - gA[1]) / max(abs(gA[0]), abs(gA[1]), 1e-300))
+        return True
+    return False
+
+
 def lambda_excused(R, variant, robust, yy, nodata, prm, l1, l2, other=None):
     """Different lambdas on related inputs: tolerated only for a criterion tie / noise-level criterion."""
     if robust:
-        # noise-level criterion is visible in the tapped best score of the interpreted run
-        f = c05.interp_kernel(variant)
-        out_i = np.zeros(yy.size, dtype=np.int16)
-        lo = np.zeros(1)
-        with np.errstate(all="ignore"), shim.Tap(f, at_return=["robust_gcv"]) as tap:
-            if variant == "ws2dwcv":
-                f(yy.astype(float), nodata, np.asarray(prm["llas"], dtype=float), True, out_i, lo)
-            else:
-                f(yy.astype(float), nodata, prm["p"], np.asarray(prm["llas"], dtype=float), True, out_i, lo)
-        rg = np.asarray(tap.ret[0]["robust_gcv"], dtype=float)
-        scale = max(1.0, float(np.max(np.abs(yy[np.isfinite(yy) & (yy != nodata)]))))
-        if np.any(rg[:, 0] < (1e-9 * scale) ** 2):
-            R.count("lambda_diff_degenerate")
-            return True
-        return False
+        return robust_lambda_excused(R, variant, yy, nodata, prm, l1, l2, other)
     vals, lams, deg = criterion(variant, yy, nodata, prm)
     if deg:
         R.count("lambda_diff_degenerate")
